@@ -232,7 +232,7 @@ def strategy(tier):
 
 def units(tier, seed):
     n = 16 if tier == 'quick' else 32
-    per = 60 if tier == 'quick' else 3000
+    per = 60 if tier == 'quick' else 750
     return [{'kind': 'random', 'n': per, 'seed': core.shard_seed(seed, ID, i)} for i in range(n)]
 
 
